@@ -527,6 +527,12 @@ class DynDiGraph(nx.DiGraph):
             raise nx.NetworkXError(
                 "The t argument must be specified.")
 
+        # reject out-of-order extensions before anything is modified
+        if u in self._succ and v in self._succ[u] and 't' in self._succ[u][v]:
+            if (t[0] if isinstance(t, list) else t) < self._succ[u][v]['t'][-1][0]:
+                raise ValueError("The specified interaction extension is broader than "
+                                 "the ones already present for the given nodes.")
+
         if u not in self._succ:
             self._succ[u] = self.adjlist_inner_dict_factory()
             self._pred[u] = self.adjlist_inner_dict_factory()
@@ -571,10 +577,6 @@ class DynDiGraph(nx.DiGraph):
                     del self.time_to_edge[app[-1][0] + 1][(u, v, "+")]
 
             else:
-                if t[0] < app[-1][0]:
-                    raise ValueError("The specified interaction extension is broader than "
-                                     "the ones already present for the given nodes.")
-
                 if t[0] <= max_end < t[1]:
                     app[-1][1] = t[1]
                     if max_end + 1 in self.time_to_edge:
